@@ -111,8 +111,10 @@ func (c *Ctx) Rule(id, text string) {
 	if c.Rules == nil {
 		c.Rules = map[string]string{}
 	}
-	if _, ok := c.Rules[id]; !ok {
+	if old, ok := c.Rules[id]; !ok {
 		c.ruleSeq = append(c.ruleSeq, id)
+	} else if old != text {
+		fmt.Fprintf(os.Stderr, "RULE-ID-CLASH %s %s\n", c.Prop, id)
 	}
 	c.Rules[id] = text
 }
